@@ -513,8 +513,11 @@ func (p *connectedPlayer) nextServerToTry(current RegisteredServer) RegisteredSe
 		}
 	}
 
+	// Server names are case-insensitive identifiers (see Proxy.Server and Proxy.Register),
+	// so an entry spelled differently from the registered name must still be recognized
+	// as the server to skip; otherwise the server that just failed is chosen again.
 	sameName := func(rs RegisteredServer, name string) bool {
-		return rs.ServerInfo().Name() == name
+		return strings.ToLower(rs.ServerInfo().Name()) == strings.ToLower(name)
 	}
 
 	for i := p.tryIndex; i < len(p.serversToTry); i++ {
